@@ -91,6 +91,18 @@ M = [
     ('rawio', 'raws_to_wbs', 'pjplan/io/raw.py', "        if raw.parent_id is not None:", "        if raw.parent_id:", 'parent-row'),
     ('rawio', 'raws_to_wbs', 'pjplan/io/raw.py', "                parent_task.children.append(task)\n                task.parent = parent_task\n            else:\n                roots.append(task)\n        else:\n            roots.append(task)",
      "                parent_task.children.append(task)\n                task.parent = parent_task\n            else:\n                roots.append(task)\n        else:\n            roots.insert(0, task)", 'row-order'),
+    ('children', 'Task.__init__', 'pjplan/task.py', "        if successors:\n            self.successors = successors\n        if predecessors:\n            self.predecessors = predecessors", "        if successors:\n            self.successors = successors\n        if predecessors:\n            self.successors = predecessors", 'as-given'),
+    ('children', 'Task.__init__', 'pjplan/task.py', "        if successors:\n            self.successors = successors\n        if predecessors:", "        if successors:\n            self.__successors = successors\n        if predecessors:", ''),
+    ('loops', '_check_loops_from_task', 'pjplan/schedule.py', "    visited_tasks.add(task.id)\n\n    for s in task.predecessors:", "    for s in task.predecessors:", 'KeyError'),
+    ('loops', '_check_loops_from_task', 'pjplan/schedule.py', "    visited_tasks.remove(task.id)\n    validated.add(task.id)", "    validated.add(task.id)", 'visited-set-is-restored'),
+    ('loops', '_check_loops_from_task', 'pjplan/schedule.py', "    visited_tasks.remove(task.id)\n    validated.add(task.id)", "    visited_tasks.remove(task.id)\n    validated.remove(task.id)", 'KeyError'),
+    ('loops', '_check_loops_from_task', 'pjplan/schedule.py', "    for c in task.children:\n        _check_loops_from_task(c, visited_tasks, validated)", "    for c in task.children:\n        _check_loops_from_task(c, validated, visited_tasks)", ''),
+    ('loops', '_check_loops_from_task', 'pjplan/schedule.py', "    for c in task.children:\n        _check_loops_from_task(c, visited_tasks, validated)", "    for c in task.children:\n        _check_loops_from_task(c.parent.parent, visited_tasks, validated)", 'non-null'),
+    ('loops', '_check_loops', 'pjplan/schedule.py', "        _check_loops_from_task(t, set(), validated)", "        _check_loops_from_task(t, validated, validated)", 'sets-different'),
+    ('rawio', 'raws_to_wbs[dependencies]', 'pjplan/io/raw.py', "                task.predecessors.append(predecessor_task)", "                predecessor_task.predecessors.append(task)", 'dependencies-of-the-rows-passed'),
+    ('rawio', 'raws_to_wbs[dependencies]', 'pjplan/io/raw.py', "        for predecessor_id in raw.predecessor_ids:\n            predecessor_task = wbs[predecessor_id]", "        for predecessor_id in raw.predecessor_ids[1:]:\n            predecessor_task = wbs[predecessor_id]", ''),
+    ('rawio', 'raws_to_wbs[dependencies]', 'pjplan/io/raw.py', "            predecessor_task = wbs[predecessor_id]\n            if predecessor_task is not None:", "            predecessor_task = wbs[predecessor_id]\n            if predecessor_task is not None and predecessor_task.parent is task.parent:", 'dependencies-of-the-rows-passed'),
+    ('rawio', 'raws_to_wbs[dependencies]', 'pjplan/io/raw.py', "        task = wbs[raw.id]\n\n        for predecessor_id", "        task = wbs[raws[0].id]\n\n        for predecessor_id", ''),
     ('rawio', 'raws_to_wbs', 'pjplan/io/raw.py', "            id=raw.id,\n            name=raw.name,", "            id=raw.id + 1,\n            name=raw.name,", 'rows-id'),
     ('csvio', '__parse_bool', 'pjplan/io/csv_io.py', "    return _val == 'True'", "    return _val == 'true'", 'bool'),
     ('csvio', 'write_csv.cells', 'pjplan/io/csv_io.py', "                task.name if task.name else '',\n                task.resource if task.resource else '',", "                task.name if task.name else '',\n                task.name if task.resource else '',", 'resource'),
